@@ -43,6 +43,9 @@ impl From<SystemTime> for Instant {
 
 impl From<Instant> for SystemTime {
     fn from(time: Instant) -> Self {
+        if time.nanos >= NANOS_PER_SEC {
+            panic!("nanos must be less than {}", NANOS_PER_SEC);
+        }
         SystemTime::UNIX_EPOCH + std::time::Duration::new(time.seconds, time.nanos)
     }
 }
